@@ -85,6 +85,8 @@ def run_case(scn):
     G, info = build(scn)
     prob = record.RecordingProblem(N, scn["lower"], scn["upper"], G, cap=scn["iters"] + 8)
     t = record.run_solver(scn, listener=True, problem=prob)
+    if t.fp_exhausted:
+        return {"violations": [], "obs": {"fp_domain_exhausted": 1}, "skip": "fp-domain-exhausted"}
     viol = []
     obs = {"runs": 1}
     if t.swallowed or t.aborted:
